@@ -67,10 +67,27 @@ func c02Judge(c *choice.Ctx, st *Stats, s *c02Seed, mut []byte, pub crypto.Publi
 	st.Trans.Add(1)
 	var ev *psatoken.Evidence
 	var err, verr error
+	reusedDiffers := ""
+	defer func() {
+		if reusedDiffers != "" {
+			c.Failf("C02:reused-evidence-verifies-differently:"+what, "%s\n%x", reusedDiffers, mut)
+		}
+	}()
 	if p, v := safely(func() {
 		ev, err = psatoken.DecodeEvidenceFromCOSE(mut)
 		if err == nil {
 			verr = ev.Verify(pub)
+		}
+		// the same on an Evidence that has just decoded and verified the genuine token
+		if err == nil && (s.alg == "ES256" || s.alg == "EdDSA" || s.alg == "PS256") {
+			used := &psatoken.Evidence{}
+			if used.UnmarshalCOSE(append([]byte{}, s.tok...)) == nil && used.Verify(s.key.Pub) == nil {
+				if uerr := used.UnmarshalCOSE(append([]byte{}, mut...)); uerr == nil {
+					if vr := used.Verify(pub); (vr == nil) != (err == nil && verr == nil) {
+						reusedDiffers = fmt.Sprintf("fresh Evidence: decode err=%v verify err=%v; Evidence that verified the genuine token before: verify err=%v", err, verr, vr)
+					}
+				}
+			}
 		}
 	}); p {
 		c.Failf("C02:panic:"+what, "panic on mutated token: %v\n%x", v, mut)
